@@ -61,8 +61,6 @@ from explorerscript.ssb_converting.ssb_data_types import (
 from explorerscript.ssb_converting.ssb_decompiler import ExplorerScriptSsbDecompiler
 from explorerscript.util import open_utf8, exps_int
 
-counter = Counter()
-
 
 class OpDict(TypedDict):
     params: list[ParamDict]
@@ -90,7 +88,13 @@ def parse_pos_mark_arg(arg_str: str) -> tuple[int, int]:
     return exps_int(arg_str_arr[0]), 2
 
 
-def read_ops(ops: list[OpDict]) -> list[SsbOperation]:
+def read_ops(ops: list[OpDict], op_counter: Counter | None = None) -> list[SsbOperation]:
+    """
+    Reads a list of ops. The ops are numbered (offset) by op_counter, which must be shared between all routines of one
+    document and must not be shared between documents. If not given, numbering starts at 1.
+    """
+    if op_counter is None:
+        op_counter = Counter()
     out_ops: list[SsbOperation] = []
 
     for op in ops:
@@ -124,7 +128,7 @@ def read_ops(ops: list[OpDict]) -> list[SsbOperation]:
             else:
                 raise ValueError("Invalid param for op.")
 
-        out_ops.append(SsbOperation(counter(), SsbOpCode(-1, op["opcode"]), params))
+        out_ops.append(SsbOperation(op_counter(), SsbOpCode(-1, op["opcode"]), params))
 
     return out_ops
 
@@ -135,6 +139,8 @@ def read_routines(
     routine_infos = []
     named_coroutines = []
     routine_ops: MutableSequence[MutableSequence[SsbOperation]] = []
+    # Ops are numbered per document (starting at 1, across all routines of the document).
+    op_counter = Counter()
     for r in routines:
         if "ops" not in r:
             raise ValueError("Ops for a routine not set.")
@@ -145,11 +151,11 @@ def read_routines(
                 raise ValueError("Target for a routine not set.")
             named_coroutines.append(SsbCoroutine(-1, r["name"]))
             routine_infos.append(SsbRoutineInfo(SsbRoutineType.COROUTINE, -1))
-            routine_ops.append(read_ops(r["ops"]))
+            routine_ops.append(read_ops(r["ops"], op_counter))
         elif r["type"] == "GENERIC":
             named_coroutines.append(SsbCoroutine(-1, "n/a"))
             routine_infos.append(SsbRoutineInfo(SsbRoutineType.GENERIC, -1))
-            routine_ops.append(read_ops(r["ops"]))
+            routine_ops.append(read_ops(r["ops"], op_counter))
         elif r["type"] == "ACTOR":
             if "target_id" not in r:
                 raise ValueError("Target for a routine not set.")
@@ -161,7 +167,7 @@ def read_routines(
                 linked_to_name = str(r["target_id"])
             named_coroutines.append(SsbCoroutine(-1, "n/a"))
             routine_infos.append(SsbRoutineInfo(SsbRoutineType.ACTOR, linked_to, linked_to_name))
-            routine_ops.append(read_ops(r["ops"]))
+            routine_ops.append(read_ops(r["ops"], op_counter))
         elif r["type"] == "OBJECT":
             if "target_id" not in r:
                 raise ValueError("Target for a routine not set.")
@@ -173,7 +179,7 @@ def read_routines(
                 linked_to_name = str(r["target_id"])
             named_coroutines.append(SsbCoroutine(-1, "n/a"))
             routine_infos.append(SsbRoutineInfo(SsbRoutineType.OBJECT, linked_to, linked_to_name))
-            routine_ops.append(read_ops(r["ops"]))
+            routine_ops.append(read_ops(r["ops"], op_counter))
         elif r["type"] == "PERFORMER":
             if "target_id" not in r:
                 raise ValueError("Target for a routine not set.")
@@ -185,7 +191,7 @@ def read_routines(
                 linked_to_name = str(r["target_id"])
             named_coroutines.append(SsbCoroutine(-1, "n/a"))
             routine_infos.append(SsbRoutineInfo(SsbRoutineType.PERFORMER, linked_to, linked_to_name))
-            routine_ops.append(read_ops(r["ops"]))
+            routine_ops.append(read_ops(r["ops"], op_counter))
         else:
             raise ValueError(f"Invalid type for a routine: {r['type']}.")
 
